@@ -32,7 +32,7 @@ def plan(tier, seed, rng, scale):
     descs = []
     for ns in range(2, 13):
         descs.append({'ns': ns, 'k': rng.choice([5, 9, 15, 31, 33, 63]), 'seed': rng.getrandbits(32), 'kind': 'table'})
-    n = int((600 if tier == 'quick' else 15000) * scale)
+    n = int((2000 if tier == 'quick' else 30000) * scale)
     for i in range(n):
         descs.append({'ns': rng.randint(2, 12), 'k': rng.choice([5, 9, 15, 31, 33, 63]) if rng.random() < 0.7 else rng.choice(G.ALL_K),
                       'seed': rng.getrandbits(32), 'kind': 'genomes' if i % 5 == 0 else 'table'})
